@@ -56,6 +56,34 @@ CHECKS = {
          "enumeration of two-connection histories on the real Connection (authenticate and get transferred, then reconnect with what was stored); issued cookies opened with an independent HMAC-SHA-256 and JSON reader",
          "435 (quick) / 20 000 (thorough) histories over client address family, secret length class, prior session cookie, kind of second connection, identity, properties, target identifier and handshake host/port; the first connection is run twice to show the session id is fresh; three histories use real time to cross the expiry.",
          "refresh of the cookie on the cookie-authenticated path is not judged; timestamps checked against the wall-clock bracket of the run.", "DESIGN.md §4 C10"),
+ "C12": ("netsim", "exploration",
+         "bounded-exhaustive enumeration of claimed user names over a 24-symbol alphabet of URL-significant characters; the real MojangAdapter's request line is captured by a loopback HTTP mock (verif-hooks origin override) and parsed independently",
+         "Every name X, aXb (and every XY, pXYq in thorough) over the alphabet plus targeted injection payloads, for two server ids and two secrets: the raw request line must have the fixed path, exactly one username parameter decoding to the claimed name and exactly one serverId equal to the independently computed hash, nothing else.",
+         "needs the add-only verif-hooks feature of passage-adapters-http; reqwest / url crates perform the encoding under test; TLS to the real session server is not exercised.", "DESIGN.md §4 C12"),
+ "C14": ("netsim", "exploration",
+         "finite product of operator configurations x client behaviours against the application's real entry point passage::start(config) in child processes (loopback TCP, SIGINT), with real-time deadlines",
+         "One child process per configuration (max_packet_length, cookie expiry, timeout, PROXY mode); handshake frames of length max-1/max/max+1/max+50 and unterminated length prefixes, cookies just inside / outside the expiry and under another secret, and 8-10 client behaviours (silent, dribbling, stopping at each protocol step, late PROXY header) each of which must be disconnected by timeout + 1.5 s; the process must exit cleanly on SIGINT.",
+         "real time with a 1.5 s allowance (closing earlier is never a violation); 'keeps answering keep-alives while routing never completes' is covered under virtual time in C07 and by the gated backend in C17.", "DESIGN.md §4 C14"),
+ "C15": ("netsim", "model_checking",
+         "enumeration of all arrival histories (depth 3/4) of real TCP connections with PROXY v1/v2 headers over 12 connection kinds x PROXY mode x limiter, against the real Listener (and passage::start), with a reference model of the effective address and a shadow instance of the real limiter; every verdict at a barrier",
+         "About 4 700 histories / 13 000 connections (quick), 66 000 histories (thorough): served exactly when the shadow limiter admits the effective address, refused or header-less connections receive no byte and cost no budget, backend services and issued cookies see the announced source; configuration wiring is covered by histories through passage::start for v1-only / v2-only / both / off.",
+         "loopback scheduling is not controlled (verdicts at barriers, 2 s deadlines); address-less headers (UNKNOWN / LOCAL) may be closed or treated as the peer.", "DESIGN.md §4 C15"),
+ "C16": ("netsim", "model_checking",
+         "enumeration of stall schedules: every stall point of 1-2 hostile clients x PROXY on/off x limiter on/off against the real Listener, a well-behaved client with another effective address must be served within one fixed bound",
+         "72 (quick) / 144 (thorough) schedules: hostile sockets are held open at each stall point (silent, inside the PROXY header, mid-frame, after each login step, in configuration never echoing, slow garbage) while the well-behaved client performs a status exchange (and a full login); the bound (2 s) is the same for all schedules.",
+         "real time on loopback, 'never' is a 2 s deadline where the correct behaviour takes milliseconds.", "DESIGN.md §4 C16"),
+ "C17": ("netsim", "model_checking",
+         "enumeration of shutdown schedules: placements of one or two in-flight connections over 7 progress points x the moment a new connection is attempted x PROXY on/off, against the real Listener and passage::start + SIGINT; observations at barriers",
+         "95 (quick) / 300 (thorough) schedules: the listener must not return while an accepted connection is unfinished, in-flight connections receive exactly the packets of an undisturbed login including the Transfer, a connection opened after the stop receives no byte, listen() returns within 2 s of the last connection finishing (or within the connection timeout for a non-cooperating client).",
+         "the slow backend is a semaphore (no real time); the stop-vs-accept tie inside one poll of the accept loop cannot be produced on a single-threaded runtime.", "DESIGN.md §4 C17"),
+ "C19": ("netsim", "exploration",
+         "bounded-exhaustive enumeration of target shapes through the real gRPC discovery and strategy adapters against an in-process tonic server generated from the repository's .proto files, in all three directions",
+         "About 700 (quick) / 4 000 (thorough) RPCs: host text x port x identifier x metadata in discovery replies, candidate lists x reply policy (none, echo of the i-th candidate exactly as received, foreign target of every shape) x client/server address x player in select(); identity on (identifier, socket address, metadata) for well-formed addresses, error for malformed ones.",
+         "tonic/prost trusted for message coding; DNS-name hosts only checked for 'no panic'; bracketed/scoped IPv6 literals may be rejected or accepted unchanged.", "DESIGN.md §4 C19"),
+ "C20": ("netsim", "model_checking",
+         "enumeration of all watch-event histories (depth 2/3/4) over 20 events served by a mock Kubernetes LIST/WATCH API to the real Agones adapter (kube watcher and backoff unmodified); marker-object barrier after every event; reference map of last observed objects",
+         "About 700 (quick) / 20 000 (thorough) histories from 3 initial lists: ADDED/MODIFIED in 6 shapes, DELETED, BOOKMARK, clean watch close, 410 Gone with re-list, and changes made while the watch is down; after every event the offered set must equal exactly the objects whose last observed state is Ready/Allocated and convertible, with current address, first port and metadata.",
+         "hand-written HTTP/1.1 mock of the Kubernetes API; event application order is the stream order (barrier argument); real time only in 5-8 s barrier deadlines.", "DESIGN.md §4 C20"),
 }
 
 ALL = ["C%02d" % i for i in range(1, 21)]
